@@ -131,4 +131,34 @@ HasCycle(g, types) ==
 HierSeqToSet(s) == {[name |-> s[i].name, types |-> SeqSet(s[i].types), measure |-> s[i].measure, ops |-> SeqSet(s[i].ops)] : i \in DOMAIN s}
 
 RoundTripOK(g, D, dump) == Iso(Imported(g, D), dump)
+
+\* ------------------------------------------------------------------ scaled families
+\* Graphs whose size crosses the word boundaries of export's relationship-id bitset (63, 64, 65, 127, ...):
+\* too large for the isomorphism search, so both sides are compared through the same count abstraction.
+\* Node h carries label A and property i = h; every relationship has type R and property w = 7.
+\*   ring(n)    n nodes, h -> h mod n + 1                       (n relationships, ids 1..n)
+\*   chain(n)   n + 1 nodes, h -> h + 1                         (n relationships, ids 1..n)
+\*   sparse(n)  chain(n) of which only the relationships leaving 1, n div 2 and n survive a deletion
+\*              (the largest surviving relationship id is n)
+FamNodes(kind, n) == IF kind = "ring" THEN n ELSE n + 1
+FamEdges(kind, n) == CASE kind = "ring" -> {<<i, (i % n) + 1>> : i \in 1..n}
+                       [] kind = "chain" -> {<<i, i + 1>> : i \in 1..n}
+                       [] kind = "sparse" -> {<<i, i + 1>> : i \in {1, n \div 2, n}}
+RECURSIVE SumSet(_)
+SumSet(T) == IF T = {} THEN 0 ELSE LET x == CHOOSE y \in T : TRUE IN x + SumSet(T \ {x})
+\* relationships grouped by (offset between the end points, type, properties): how many, and the sum of their
+\* source handles; a duplicated, lost, re-typed, re-directed or property-less relationship changes a group
+FamGroups(kind, n) ==
+    LET E == FamEdges(kind, n)
+        NN == FamNodes(kind, n)
+        off(e) == (e[2] + NN - e[1]) % NN
+    IN {[off |-> o, type |-> "R", props |-> [w |-> "i:7"],
+         count |-> Cardinality({e \in E : off(e) = o}),
+         srcsum |-> SumSet({e[1] : e \in {x \in E : off(x) = o}})] : o \in {off(e) : e \in E}}
+FamExpected(kind, n) ==
+    LET NN == FamNodes(kind, n)
+    IN [nodes |-> [total |-> NN, distinct |-> NN, min |-> 1, max |-> NN, labelled |-> NN], groups |-> FamGroups(kind, n)]
+FamilyOK(kind, n, obs) ==
+    LET x == FamExpected(kind, n)
+    IN obs.nodes = x.nodes /\ SeqSet(obs.groups) = x.groups /\ Len(obs.groups) = Cardinality(x.groups)
 =============================================================================
